@@ -36,11 +36,12 @@ def as_bool(v):
 
 
 class Obj:
-    __slots__ = ('size', 'data', 'kind', 'name', 'ro', 'alloc_site')
+    __slots__ = ('size', 'data', 'kind', 'name', 'ro', 'alloc_site', 'arr')
     def __init__(s, size, kind, name, fill=0):
-        s.size = size; s.data = [fill] * size; s.kind = kind; s.name = name; s.ro = False; s.alloc_site = None
+        s.size = size; s.data = [fill] * size; s.kind = kind; s.name = name; s.ro = False; s.alloc_site = None; s.arr = None
     def clone(s):
-        o = Obj.__new__(Obj); o.size = s.size; o.data = s.data[:]; o.kind = s.kind; o.name = s.name; o.ro = s.ro; o.alloc_site = s.alloc_site
+        o = Obj.__new__(Obj); o.size = s.size; o.data = s.data[:] if s.arr is None else s.data; o.kind = s.kind; o.name = s.name; o.ro = s.ro; o.alloc_site = s.alloc_site
+        o.arr = s.arr
         return o
 
 class Tomb:
@@ -469,15 +470,44 @@ class Engine:
 
     def load(s, st, ptr, n):
         o, off = s.resolve(st, ptr, n, 'read')
+        if o.arr is not None:
+            return s.arr_load(o, off if type(off) is int else off[1], n)
         if type(off) is int:
             return s.load_cells(o.data[off:off + n], n)
         return s.load_sym(st, o, off[1], n)
+
+    # ---- array-mode objects: large objects indexed by symbolic offsets (hash tables of the compressors) live in a z3 array
+    def to_array_mode(s, o):
+        arr = z3.K(z3.BitVecSort(64), BVV(0, 8))
+        for i, c in enumerate(o.data):
+            if c is None or (type(c) is int and c == 0): continue
+            if type(c) is tuple and isinstance(c[0], Ptr): raise EngineLimit('pointer stored in an object that needs array mode')
+            arr = z3.Store(arr, BVV(i, 64), bv(s.cell_bv(c), 8))
+        o.arr = arr; o.data = ()
+
+    def arr_load(s, o, off, n):
+        base = BVV(off, 64) if type(off) is int else off
+        parts = [z3.Select(o.arr, base + BVV(i, 64) if i else base) for i in reversed(range(n))]
+        r = z3.Concat(*parts) if n > 1 else parts[0]
+        r2 = z3.simplify(r)
+        return r2.as_long() if z3.is_bv_value(r2) else r2
+
+    def arr_store(s, o, off, val, n):
+        base = BVV(off, 64) if type(off) is int else off
+        arr = o.arr
+        for i in range(n):
+            b = BVV((val >> (8 * i)) & 0xFF, 8) if type(val) is int else (val if n == 1 else z3.Extract(8 * i + 7, 8 * i, val))
+            arr = z3.Store(arr, base + BVV(i, 64) if i else base, b)
+        o.arr = arr
 
     def load_sym(s, st, o, off, n):
         if o.ro and o.size > 64:
             return s.load_const_array(o, off, n)
         if o.size - n + 1 > s.ITE_MAX:
-            raise EngineLimit("symbolic-offset read over %d candidate offsets in '%s'" % (o.size - n + 1, o.name))
+            if any(type(c) is tuple and isinstance(c[0], Ptr) for c in o.data):
+                raise EngineLimit("symbolic-offset read over %d candidate offsets in '%s' (holds pointers)" % (o.size - n + 1, o.name))
+            s.to_array_mode(o)
+            return s.arr_load(o, off, n)
         res = None
         for c in range(o.size - n, -1, -1):
             v = s.load_cells(o.data[c:c + n], n)
@@ -504,6 +534,9 @@ class Engine:
         o, off = s.resolve(st, ptr, n, 'write')
         if o.ro: raise Violation('write-to-const', "write to constant object %s" % o.name, s.model_dict(st))
         o = st.wobj(ptr.obj)
+        if o.arr is not None:
+            if isinstance(val, Ptr): raise EngineLimit('pointer store into an array-mode object')
+            s.arr_store(o, off if type(off) is int else off[1], val, n); return
         d = o.data
         if type(off) is int:
             if type(val) is int:
@@ -518,7 +551,8 @@ class Engine:
         off = off[1]
         if isinstance(val, Ptr): raise EngineLimit('symbolic-offset store of a pointer')
         if o.size - n + 1 > s.ITE_MAX:
-            raise EngineLimit("symbolic-offset write over %d candidate offsets in '%s'" % (o.size - n + 1, o.name))
+            s.to_array_mode(o)
+            s.arr_store(o, off, val, n); return
         for c in range(0, o.size - n + 1):
             cond = off == BVV(c, 64)
             for i in range(n):
@@ -532,6 +566,8 @@ class Engine:
         o, off = s.resolve(st, ptr, n, what)
         if type(off) is not int:
             off = s.concretize(st, off[1], 'buffer offset')
+        if o.arr is not None:
+            return [s.arr_load(o, off + i, 1) for i in range(n)]
         return o.data[off:off + n]
 
     def write_bytes(s, st, ptr, cells, what='write'):
@@ -542,6 +578,9 @@ class Engine:
         if type(off) is not int:
             off = s.concretize(st, off[1], 'buffer offset')
         o = st.wobj(ptr.obj)
+        if o.arr is not None:
+            for i, c in enumerate(cells): s.arr_store(o, off + i, bv(s.cell_bv(c), 8) if type(c) is not int else c, 1)
+            return
         o.data[off:off + n] = cells
 
     def cstring(s, st, ptr, maxlen=4096):
